@@ -1794,6 +1794,10 @@ def c14(ck):
     quick = ck.tier == "quick"
     ck.level = "exploration"
     S = header_strsize(ck)
+    if not quick:
+        # termination at design level: under weak fairness every call of the implementation's step structure
+        # reaches its return (liveness, checked without the view; about five minutes)
+        ck.model("PolyseedImpl.tla", "PolyseedImpl_live.cfg", heap="16g", timeout=3000)
     strs = hostile_strings(rng, 1200 if quick else 40000, S)
     for variant in ("san", "plain"):
         for n, grp in enumerate(chunked(strs if variant == "san" else strs[::3], 24)):
